@@ -226,7 +226,33 @@ def run(ctx):
     ctx.ob("C20.R4", fu, cuts == {N.mk_mul(N.const(3), ls)}, "hexundump cuts each line at 3*linesize after the offset column (covers the 3*linesize-1 wide hex field, stops before the printable column)", key="reader cut")
     strips = [x for p in pu for e in p.events for v in e.a.values() if isinstance(v, tuple) for x in N.walk(v) if x[0] == "call" and x[1][0] == "attr" and x[1][2] == "lstrip"]
     ctx.ob("C20.R4", fu, bool(strips), "hexundump strips the offset column before cutting", key="offset strip")
-    ctx.floor("C20.R4", 4)
+    # content of a line: offset i, the bytes data[i:i+linesize] as two upper-case hex digits each joined by single blanks; the reader turns
+    # every blank-separated token back with int(token, 16); lines step by linesize from 0
+    data_, = (("param", "data"),)
+    good = False
+    for p in ph:
+        for e in p.events:
+            if e.kind == "MUT" and e["method"] == "append" and e.loops and e["args"] and e["args"][0][0] == "fmt":
+                lp = next((x for x in p.events if x.kind == "LOOP" and x["lid"] == e.loops[-1]), None)
+                a = e["args"][0][2]
+                if lp is None or a[0] != "tuple" or len(a[1]) != 3:
+                    continue
+                i = ("rangeelem", (N.const(0), ("call", ("free", "len"), (data_,), ()), ls), lp["lid"])
+                line = ("sub", data_, ("slice", i, N.mk_add(i, ls), N.NONE))
+                hexs = a[1][1]
+                while hexs[0] == "call" and hexs[1] == ("free", "str") and len(hexs[2]) == 1:
+                    hexs = hexs[2][0]
+                okline = lp["iter"] == ("call", ("free", "range"), (N.const(0), ("call", ("free", "len"), (data_,), ()), ls), ()) and a[1][0] == i
+                okhex = hexs[0] == "call" and hexs[1] == ("attr", N.const(" "), "join") and hexs[2][0][0] == "comp" and hexs[2][0][3][0][0] == line \
+                    and hexs[2][0][2][0] == "sub" and hexs[2][0][2][1] == ("free", "HEXPRINT") and hexs[2][0][2][2][0] == "elem" and hexs[2][0][2][2][1] == line
+                good = okline and okhex
+    ctx.ob("C20.R4", fh, good, "each dump line shows offset i and HEXPRINT[b] for the bytes data[i:i+linesize] joined by single blanks, i stepping by linesize from 0", key="line content")
+    hp = M.module_assigns[[r for r in M.modules if r.endswith("hex.py")][0]].get("HEXPRINT")
+    okp = isinstance(hp, ast.ListComp) and ast.dump(hp.elt) == ast.dump(ast.parse("format(%s, '02X')" % hp.generators[0].target.id, mode="eval").body) if isinstance(hp, ast.ListComp) and isinstance(hp.generators[0].target, ast.Name) else False
+    ctx.ob("C20.R4", "HEXPRINT", bool(okp), "HEXPRINT[i] is format(i, '02X'): exactly two upper-case hex digits per byte", key="HEXPRINT", loc="construct/lib/hex.py")
+    toks = [x for p in pu for e in p.events for v in e.a.values() if isinstance(v, tuple) for x in N.walk(v) if x[0] == "call" and x[1] == ("free", "int")]
+    ctx.ob("C20.R4", fu, bool(toks) and all(len(x[2]) == 2 and x[2][1] == N.const(16) for x in toks), "hexundump reads every token as a base-16 number", key="reader base")
+    ctx.floor("C20.R4", 7)
 
     # ---------------------------------------------------------------- R5
     lc = M.cls("ListContainer")
